@@ -19,10 +19,10 @@ def run(ctx):
         return
     ok = ctx.prove(MODULES, needs_gen=["KernelsMint", "KernelsGovFee", "FactsBan"])
     # part 1: conversion (model vs real bank + message router)
-    res = fw.corr(ctx, "convert", 60 if ctx.thorough() else 8)
+    res = fw.corr(ctx, "convert", 200 if ctx.thorough() else 8)
     fw.report_corr(ctx, "convert", res)
     # part 2: minting — real blocks at irregular intervals, year boundaries, supplies near the cap (model vs real app + oracles)
-    res = fw.corr(ctx, "mint", 120 if ctx.thorough() else 25)
+    res = fw.corr(ctx, "mint", 600 if ctx.thorough() else 25)
     fw.report_corr(ctx, "mint", res, features)
     if res is not None:
         st = res["stats"]
